@@ -237,7 +237,7 @@ def c15_2(rep, ix):
     ret = [s for s in body if isinstance(s, ast.Return)]
     okret = len(ret) == 1 and resolved_text(en, ret[0].value, ret[0]) == "expr.getText()"
     rep.check(okret, R, ix.site(e, t), "for a registered name the evaluator returns the name itself", key="eval return")
-    chk = [s for s in body if isinstance(s, ast.If) and always_raises(s.body) and "np.ndarray" in u(s.test) and "_VAR[" in u(s.test) and u(s.test).startswith("not isinstance")]
+    chk = [s for s in body if isinstance(s, ast.If) and always_raises(s.body) and "np.ndarray" in u(s.test) and "_VAR[" in resolved_text(en, s.test, s) and u(s.test).startswith("not isinstance")]
     rep.check(len(chk) == 1 and ret and pos(chk[0]) < pos(ret[0]), R, ix.site(e, t), "before returning the name the stored value is checked to be an array (TypeError otherwise)", key="eval array check")
     # the test sits after the undefined-name check and before the plain value return
     plain = [s for s in walk_shallow(en) if isinstance(s, ast.Return) and resolved_text(en, s.value, s) == "_VAR[expr.getText()]"]
